@@ -152,6 +152,25 @@ pub mod roxmltree {
                 r@.len() < tw_seq(self).len() ==> tw_pred(self).ensures((&tw_seq(self)[r@.len() as int],), false),
         { unimplemented!() }
     }
+    // ---- namespace declarations in scope of a node (roxmltree::Node::namespaces yields roxmltree::Namespace items: prefix or None, and URI)
+    #[verifier::external_body]
+    pub struct XmlNs<'a> { _p: core::marker::PhantomData<&'a ()> }
+    pub uninterp spec fn xns_name(n: XmlNs) -> Option<Seq<char>>;
+    pub uninterp spec fn xns_uri(n: XmlNs) -> Seq<char>;
+    pub uninterp spec fn declared_ns<'a, 'b>(n: Node<'a, 'b>) -> Seq<XmlNs<'b>>;
+    impl<'a> XmlNs<'a> {
+        #[verifier::external_body]
+        pub fn name(&self) -> (r: Option<&'a str>)
+            ensures match r { Some(v) => xns_name(*self) == Some(v@), None => xns_name(*self) is None }
+        { unimplemented!() }
+        #[verifier::external_body]
+        pub fn uri(&self) -> (r: &'a str) ensures r@ == xns_uri(*self) { unimplemented!() }
+    }
+    // presentation of `N.namespaces()`: the namespace declarations as a Vec, in roxmltree's order
+    #[verifier::external_body]
+    pub fn declared_namespaces<'a, 'input: 'a>(n: Node<'a, 'input>) -> (r: Vec<XmlNs<'input>>)
+        ensures r@ == declared_ns(n)
+    { unimplemented!() }
     // presentation of `N.children().filter(Node::is_element)`: the element children of N, in document order
     #[verifier::external_body]
     pub fn element_children<'a, 'input: 'a>(n: Node<'a, 'input>) -> (r: Vec<Node<'a, 'input>>)
